@@ -26,6 +26,16 @@ EXTENDS DiffFormat, IOUtils
 SchemaActions == {"local", "remote", "base", "clear", "clear_all", "remove", "either",
                   "local_then_remote", "remote_then_local", "take_max", "custom"}
 
+\* acts: the action enum, as read from the published schema file by the harness (SchemaActions is its transcription
+\* at the time of writing; the file is the authority)
+DecisionSchemaOKFor(dec, acts) ==
+  /\ Len(dec.extra) = 0
+  /\ dec.conflict_ok
+  /\ dec.path_ok
+  /\ dec.action \in acts
+  /\ SchemaOK(dec.local_diff) /\ SchemaOK(dec.remote_diff)
+  /\ SchemaOK(dec.custom_diff) /\ SchemaOK(dec.similar)
+
 DecisionSchemaOK(dec) ==
   /\ Len(dec.extra) = 0
   /\ dec.conflict_ok
